@@ -17,6 +17,7 @@ type UpdownInput struct {
 // UpdownProfile tunes MakeUpdown.
 type UpdownProfile struct {
 	MaxQueries, MaxTargets int
+	Width                  [2]int // genome width range; zero = 12..120
 	PAmbTract              float64 // probability that a sequence gets ambiguity tracts
 	MultiHit               bool
 }
@@ -27,6 +28,9 @@ type UpdownProfile struct {
 // ambiguity tracts.
 func MakeUpdown(r *fw.Rng, p UpdownProfile) UpdownInput {
 	W := r.Range(12, 120)
+	if p.Width[1] > 0 {
+		W = r.Range(p.Width[0], p.Width[1])
+	}
 	ref := Genome(r, W)
 	type site struct {
 		pos int
